@@ -71,6 +71,14 @@ theorem C32_flush (env : Env) (w : World) (i : Nat) (o : Obj) (hdead : w.alive =
   have hov := over_of_dead w o hdead
   by_cases hp : o.status.isPending = true <;> simp [step, ho, hov, hp]
 
+/-- an object of a finished session handed as an ARGUMENT to an operation on a live object of the current session (bare or inside
+    a list / set / tuple; add, remove, assignment, set(), constructor keyword, create()) is refused with the mixed-transactions error:
+    the finished session's world is exactly unchanged and no statement is emitted -/
+theorem C32_stale_argument_refused (w : World) (i : Nat) (o : Obj) (hdead : w.alive = false) (ho : w.objs[i]? = some o) :
+    step ⟨true⟩ w i .staleArg = ⟨w, .mixed, []⟩ := by
+  have hov := over_of_dead w o hdead
+  simp [step, ho, hov]
+
 /-! ### no operation ever reaches the session code or the database -/
 
 /-- with the session over, no operation passes its guards into the live session code -/
@@ -100,6 +108,7 @@ theorem C32_never_live (env : Env) (w : World) (i : Nat) (op : Op) (hdead : w.al
     | useAsRef => simp [hov]; split <;> simp
     | collSelect a => simp only; split <;> simp
     | collCreate a => simp [hov]; split <;> simp
+    | staleArg => simp [hov]; split <;> simp
     | flush => simp [hov]; repeat' split
                all_goals simp
     | _ => simp [hov, attrLoadOut, setLoadOut]
